@@ -10,7 +10,7 @@
    ten evaluation functions (Lemmas_ConstLogic.v, Lemmas_ConstEval.v, Lemmas_ConstCase_*.v, Lemmas_ConstThm.v): it fails to go
    through if any write site loses its guard.  Also: an attempt on a constant cell through the assignment store sequence is an
    error with the state unchanged, and the flag itself is permanent. *)
-From PE2 Require Import Eval Run Lemmas_Store Lemmas_Out Lemmas_DeepCopy Lemmas_ConstLogic Lemmas_ConstThm Lemmas_ConstStates.
+From PE2 Require Import Eval Run Lemmas_Store Lemmas_Out Lemmas_DeepCopy Lemmas_ConstLogic Lemmas_ConstThm Lemmas_ConstStates Lemmas_ForStates.
 
 Theorem C08_assignment_to_constant_no_effect : forall t c id v s cl,
   get_cell id s = (Ok cl, s) -> well_tagged v -> c_const cl = true ->
@@ -88,3 +88,9 @@ Theorem C08_readfile_into_a_constant_is_an_error : forall ped repl lim fuel t na
   exists f, ev_eval (evs_at ped repl lim (S (S fuel))) (NReadFile t (NStr name) id) c s = (Fail f, s).
 Proof. exact readfile_into_a_constant_is_an_error. Qed.
 Print Assumptions C08_readfile_into_a_constant_is_an_error.
+
+Theorem C08_for_over_a_constant_is_an_error : forall ped repl lim fuel t id start stop step body c s i cl,
+  lookup_var c (tval id) true s = (Ok (Some i), s) -> nm_get i (s_cells s) = Some cl -> c_const cl = true ->
+  exists f, ev_eval (evs_at ped repl lim (S fuel)) (NFor t id start stop step body) c s = (Fail f, s).
+Proof. exact for_over_a_constant_is_an_error. Qed.
+Print Assumptions C08_for_over_a_constant_is_an_error.
